@@ -125,7 +125,7 @@ def run_batch(check, prop: str, tier: str, seed: int, runs: int, budget: float, 
 
     results: dict[int, list[dict]] = {}
     agg = {"runs": 0, "stats": Counter(), "shapes": set(), "nt_shapes": set(), "nontrivial": 0, "viol": [], "harness": [],
-           "hangs": [], "samples": [], "digests": {}, "ended": 0, "hashseeds": sorted({x["hs"] for x in procs}), "xmismatch": []}
+           "hangs": [], "invalid": [], "samples": [], "digests": {}, "ended": 0, "hashseeds": sorted({x["hs"] for x in procs}), "xmismatch": []}
     alive = len(procs)
     hang_limit = float(os.environ.get("DSIM_HANG_S", str(getattr(check, "HANG_S", 240))))
     t0 = time.monotonic()
@@ -167,6 +167,11 @@ def run_batch(check, prop: str, tier: str, seed: int, runs: int, budget: float, 
         elif ev.get("ev") == "done":
             pr["cur"] = None
             r = ev["r"]
+            if ev.get("invalid"):
+                # the generator produced a scenario outside the reference model's domain: skipped (sound), counted, and a
+                # harness error only if it happens often enough to indicate a generator bug
+                agg["invalid"].append("run %d: %s" % (r, ev["harness_error"][-300:]))
+                continue
             if ev.get("harness_error"):
                 agg["harness"].append("run %d: %s" % (r, ev["harness_error"][-1500:]))
                 continue
@@ -198,6 +203,8 @@ def run_batch(check, prop: str, tier: str, seed: int, runs: int, budget: float, 
                 agg["xmismatch"].append({"r": r, "hashseeds": [int(e["hashseed"]) for e in evs]})
         agg["xcompared"] = sum(1 for evs in results.values() if len(evs) == 2)
         agg["logical_runs"] = len(results)
+    if len(agg["invalid"]) > max(5, 0.02 * max(1, agg["runs"])):
+        agg["harness"].append("%d generated scenarios were outside the model's domain (e.g. %s)" % (len(agg["invalid"]), agg["invalid"][0]))
     agg["digests"] = {r: [e["digest"] for e in evs] for r, evs in results.items()}
     agg["wall"] = time.monotonic() - t0
     return agg
@@ -308,6 +315,7 @@ def write_evidence(check, prop: str, tier: str, seed: int, agg: dict, nviol: int
         "fault_kinds_not_injected": check.FAULTS_NOT_INJECTED,
         "hangs": len(agg["hangs"]),
         "harness_errors": len(agg["harness"]),
+        "generated_scenarios_skipped_as_outside_model_domain": len(agg["invalid"]),
     }
     if "xcompared" in agg:
         cov["cross_hash_seed_pairs_compared"] = agg["xcompared"]
